@@ -81,7 +81,7 @@ def explore(tier="quick", prop="C06"):
     rng = random.Random(common.seed() * 31337 + sum(map(ord, prop)))
     stats = {"evaluations": 0, "distinct_nontrivial": 0, "samples": []}
     failure = None
-    reps = 6 if tier == "quick" else 120
+    reps = 8 if tier == "quick" else 160
     eps = c.EPSILON
     via_model = {}
 
@@ -111,13 +111,22 @@ def explore(tier="quick", prop="C06"):
                 break
             n = rng.randint(1, 6)
             kinds = ["generic", "prob", "lattice"] if sp["decorated"] or sp["domain"] != "positive" else ["generic", "prob"]
+            kinds = kinds + ["near"]
             kind = kinds[rep % len(kinds)]
             dom = sp["domain"]
             if kind == "lattice" and dom == "positive" and not sp["decorated"]:
                 kind = "generic"
-            x = gen_vec(rng, n, dom, kind)
-            y = gen_vec(rng, n, dom, kind)
-            if rep % 5 == 4:
+            near_step = None
+            if kind == "near":
+                # almost equal coordinates (distinct floats a relative 1e-9 .. 1e-5 apart): x, x + d, x + 2d
+                x = gen_vec(rng, n, dom, "generic")
+                rel = rng.choice([3e-9, 6e-6, 2e-5])
+                near_step = [abs(v) * rel + (1e-9 if rng.random() < 0.5 else 0.0) for v in x]
+                y = [v + 2 * dlt for v, dlt in zip(x, near_step)]
+            else:
+                x = gen_vec(rng, n, dom, kind)
+                y = gen_vec(rng, n, dom, kind)
+            if rep % 5 == 4 and kind != "near":
                 y = list(x)
             xa, ya = np.asarray(x, dtype=float), np.asarray(y, dtype=float)
             xb, yb = xa.tobytes(), ya.tobytes()
@@ -143,6 +152,20 @@ def explore(tier="quick", prop="C06"):
                         not (g2 == got or (math.isnan(g2) and math.isnan(got))):
                     fail(name, "value depends on call history: first %r, later %r / %r" % (got, g2, again), x, y)
                     break
+                # a caller-owned buffer re-used across calls (contents replaced in place between them)
+                buf = np.asarray(y, dtype=float).copy()
+                fn(buf, ya)
+                buf[:] = xa
+                g3 = float(fn(buf, ya))
+                buf2 = np.asarray(x, dtype=float).copy()
+                fn(xa, buf2)
+                buf2[:] = ya
+                g4 = float(fn(xa, buf2))
+                if not (g3 == got or (math.isnan(g3) and math.isnan(got))) or \
+                        not (g4 == got or (math.isnan(g4) and math.isnan(got))):
+                    fail(name, "value depends on call history (re-used argument buffer): fresh arrays %r, buffer as first "
+                               "argument %r, as second %r" % (got, g3, g4), x, y)
+                    break
                 xi = np.asarray([int(v) for v in x]) if kind == "lattice" else None
                 if xi is not None:
                     try:
@@ -162,6 +185,13 @@ def explore(tier="quick", prop="C06"):
                     okc = close(got, want)
                 if not okc:
                     fail(name, "value %r differs from the closed form %r" % (got, want), x, y)
+                    break
+                buf = np.asarray(y, dtype=float).copy()      # same array object, new contents: still the closed form
+                fn(buf, ya)
+                buf[:] = xa
+                g3 = float(fn(buf, ya))
+                if not (close(g3, want) or (name == "chord" and abs(g3 * g3 - want * want) <= 1e-12)):
+                    fail(name, "with a re-used argument buffer the value is %r, closed form %r" % (g3, want), x, y)
                     break
                 g2 = float(via_model[name](np.asarray(x, dtype=float), np.asarray(y, dtype=float)))
                 if not (close(g2, want) or (name == "chord" and abs(g2 * g2 - want * want) <= 1e-12)):
@@ -191,7 +221,7 @@ def explore(tier="quick", prop="C06"):
                     fail(name, "self-distance %r is not zero" % z, x, x)
                     break
             if "tri" in ax:
-                z = gen_vec(rng, n, dom, kind)
+                z = gen_vec(rng, n, dom, kind) if near_step is None else [v + dlt for v, dlt in zip(x, near_step)]
                 dxz = float(fn(np.asarray(x, dtype=float), np.asarray(z, dtype=float)))
                 dzy = float(fn(np.asarray(z, dtype=float), np.asarray(y, dtype=float)))
                 if got > dxz + dzy + 1e-9 * max(1.0, abs(got)):
@@ -264,8 +294,14 @@ def replay(rec):
     except Exception as ex:
         out["closed_form"] = "n/a (%s)" % ex
     out["self_distance"] = float(d.DISTANCES[rec["metric"]](np.asarray(rec["x"], dtype=float), np.asarray(rec["x"], dtype=float)))
+    fn = d.DISTANCES[rec["metric"]]
+    buf = y.copy()
+    fn(buf, y)
+    buf[:] = x
+    out["reused_buffer_value"] = float(fn(buf, y))
     bad = out["x_modified"] or (isinstance(out["closed_form"], float) and not close(got, out["closed_form"])) \
-        or math.isnan(got) or math.isnan(out["self_distance"])
+        or math.isnan(got) or math.isnan(out["self_distance"]) \
+        or not (out["reused_buffer_value"] == got or (math.isnan(got) and math.isnan(out["reused_buffer_value"])))
     return out if bad else None
 
 
